@@ -417,11 +417,12 @@ UNITS_APARMAP = [AsyncBuildParmap, AsyncParmapperIter, AsyncParmapperIterProcess
 from contracts.server import ACallUnit, AStreamUnit, AEnqueueUnit, AGatherUnit, AWaitUnit      # noqa: E402
 from contracts.buffer import ParmapperAsyncIter, DoAsyncMain, AsyncIterIter        # noqa: E402
 from contracts.ctors import STREAM_CTORS      # noqa: E402
+from contracts.c16_ops import UNITS as UNITS_ASYNC_OPS      # noqa: E402  (one-to-one AsyncStream operators under their sync counterparts' contracts)
 from contracts.c11 import ServerEnterUnit, AServerEnterUnit      # noqa: E402  (each entry of the async server makes its own loop-bound condition, as the sync one makes its own)
 # the async parmap with a sync worker submits through the executor wrappers with the LOUD default (the sync Parmapper passes loud_exception=False): the wrapper must not
 # change the outcome -- whatever the worker's exception is like
 from contracts.c01 import LoudFunction, LoudProcessFunction, SubmitUnit, SubmitUnitProcess      # noqa: E402
-UNITS = [AFeed, AFeedNoPre, AConsumer, AConsumerNoPre, LoudFunction, LoudProcessFunction, SubmitUnit, SubmitUnitProcess] + UNITS_APARMAP + list(STREAM_CTORS) + [ParmapperAsyncIter, DoAsyncMain, AsyncIterIter, ACallUnit, AStreamUnit, AEnqueueUnit, AGatherUnit, AWaitUnit, ServerEnterUnit, AServerEnterUnit, C16Lemma]
+UNITS = [AFeed, AFeedNoPre, AConsumer, AConsumerNoPre, LoudFunction, LoudProcessFunction, SubmitUnit, SubmitUnitProcess] + UNITS_APARMAP + list(STREAM_CTORS) + [ParmapperAsyncIter, DoAsyncMain, AsyncIterIter, ACallUnit, AStreamUnit, AEnqueueUnit, AGatherUnit, AWaitUnit, ServerEnterUnit, AServerEnterUnit, C16Lemma] + list(UNITS_ASYNC_OPS)
 NOT_DECIDED = ('that loop.run_in_executor / create_task / run_coroutine_threadsafe deliver the outcome of what they wrap (trusted asyncio)',)
 SCENARIOS = [('', 'replay/scenarios/c16_sync_vs_async.py'), ('', 'replay/scenarios/c16_async_preprocessor.py')]
 BOUNDED = [{'function': 'sync vs async entry points end to end (event loop scheduling, executors, asyncio futures)', 'method': 'runtime scenario replay/scenarios/c16_sync_vs_async.py (differential: Server vs AsyncServer call/stream; Stream.parmap vs its three async variants)', 'bound': '24 inputs x 4 flag combinations, 5 worker behaviours incl. awkward exception classes', 'counted_as_proved': False}]
